@@ -4,6 +4,7 @@ package glue
 
 import (
 	"fmt"
+	"runtime"
 	"runtime/debug"
 	"time"
 
@@ -28,6 +29,7 @@ type DecodeResult struct {
 	Deliveries []*entities.Message
 	Panic      string
 	Hung       bool
+	HungWhy    string
 }
 
 // NewCol builds a collecting process (never started) for in-process decoding.
@@ -46,8 +48,13 @@ func NewCol(proto string, mode collector.DecodingMode, clk collector.VerifClock,
 	return &Col{CP: cp, Mode: mode, Proto: proto, timer: time.NewTimer(time.Hour)}
 }
 
-// HangLimit is how long a decode may take before it is declared hung (normal: < 1 ms).
-var HangLimit = 10 * time.Second
+// HangLimit is how long a decode may take before it is declared hung (normal: < 1 ms);
+// HeapLimit is how much the heap may grow during one decode of a <= 64 KiB input
+// (normal: a few MiB). Both are about three orders of magnitude above normal.
+var (
+	HangLimit        = 10 * time.Second
+	HeapLimit uint64 = 1 << 30
+)
 
 // Decode feeds one packet; deliveries on the message channel are collected until the
 // decoder returns. Panics are recovered and reported; a decoder that does not return
@@ -70,8 +77,10 @@ func (c *Col) Decode(pkt []byte, addr string) DecodeResult {
 		default:
 		}
 	}
-	c.timer.Reset(HangLimit)
+	c.timer.Reset(200 * time.Millisecond)
 	var del []*entities.Message
+	start := time.Now()
+	var base uint64
 	for {
 		select {
 		case m := <-c.CP.GetMsgChan():
@@ -80,7 +89,18 @@ func (c *Col) Decode(pkt []byte, addr string) DecodeResult {
 			r.Deliveries = del
 			return r
 		case <-c.timer.C:
-			return DecodeResult{Hung: true, Deliveries: del}
+			var ms runtime.MemStats
+			runtime.ReadMemStats(&ms)
+			if base == 0 {
+				base = ms.HeapAlloc
+			}
+			if el := time.Since(start); el > HangLimit {
+				return DecodeResult{Hung: true, Deliveries: del, HungWhy: fmt.Sprintf("decode has not returned after %v", el.Round(time.Second))}
+			}
+			if ms.HeapAlloc > base+HeapLimit {
+				return DecodeResult{Hung: true, Deliveries: del, HungWhy: fmt.Sprintf("heap grew by %d MiB within %v while decoding a %d-byte packet", (ms.HeapAlloc-base)>>20, time.Since(start).Round(time.Millisecond), len(pkt))}
+			}
+			c.timer.Reset(200 * time.Millisecond)
 		}
 	}
 }
